@@ -415,6 +415,9 @@ def setupRetry (g : GRetry) (inCtx : Except Err Val.Dict) : RetryState × Option
         | some (.int n) => .ok (.val (.int n))
         | some _ => .error .valueError
         | none => .error .expr
+      -- a string is always evaluated, also one without an expression: it then yields itself,
+      -- which is not an integer
+      | .val (.str _) => .error .valueError
       | rv => .ok rv
     match step r0.delay with
     | .error e => (r0, some e)
